@@ -131,6 +131,36 @@ def explain(f):
     return "%s:unexplained:%s" % (b, ev.get("e"))
 
 
+def derived_schema(chk):
+    """Draw variables declared through #[derive(Storable)]: the declaration the backends allocate from must describe the
+    values the generated get_all() hands them (type, scalar / vector, length = product of the declared dims), for one field
+    of every supported type, and the real backends must take those values."""
+    p = C.vh(["derive-schema", C.WORK], check=True, timeout=600)
+    d = json.loads(p.stdout.strip().splitlines()[-1])
+    bad = []
+    for f in d["fields"]:
+        if f["value_type"] in ("absent",):
+            continue
+        if f["value_type"] != f["declared"]:
+            bad.append(("type", f))
+        elif f["value_scalar"] != (not f["dims"]):
+            bad.append(("scalar_vs_dims", f))
+        elif f["value_len"] != f["dim_product"]:
+            bad.append(("length", f))
+    for n in d["values_without_declaration"]:
+        bad.append(("undeclared", {"name": n}))
+    chk.part("derived_schema", fields=len(d["fields"]), backends=d["backends"], mismatches=len(bad))
+    if len(d["fields"]) < 20:
+        raise C.ToolError("derived draw struct declares only %d fields" % len(d["fields"]))
+    for kind, f in bad[:5]:
+        chk.violation("derive:%s:%s" % (kind, f["name"]), "derived declaration does not describe the recorded value (%s): %s" %
+                      (kind, json.dumps(f)), f)
+    for b in d["backends"]:
+        if not b["ok"]:
+            chk.violation("derive:backend:%s" % b["backend"], "backend %s does not take / return the values of a derived draw "
+                          "struct: %s" % (b["backend"], b.get("error")), b)
+
+
 def run(tier):
     chk = C.Check("C14", "model_checking", tier)
     chk.cov["rule"] = ("TLC enumerates every operation sequence (record with warm-up/divergence/update flags, flush, inspect, "
@@ -144,8 +174,11 @@ def run(tier):
                        "harness-side by exact comparison of canonical cell strings (bit patterns)",
                        "stats 'draw' and 'chain' are omitted by the HashMap/ndarray/Zarr backends by design and not demanded",
                        "CSV holds its seven fixed statistics and the draw variables (printed precision); its inspect() has no result by design",
-                       "Zarr inspect is treated as a reader observation (only flushed data is demanded)"]
+                       "Zarr inspect is treated as a reader observation (only flushed data is demanded)",
+                       "derive(Storable) declarations are checked on one struct with a field of every supported type "
+                       "(harness side), the operation sequences use a hand-written Storable"]
     C.build_harness()
+    derived_schema(chk)
     rnd = random.Random(C.seed() * 999331 + 77)
     behs = behaviours(chk, 2, 2)
     per = 60 if tier == "quick" else 1500
